@@ -1,0 +1,19 @@
+//go:build verif
+// +build verif
+
+package route
+
+import (
+	"github.com/grafana/carbon-relay-ng/persister"
+	"github.com/grafana/metrictank/schema"
+)
+
+// VerifGetSchemas is getSchemas, for the verification harness.
+func VerifGetSchemas(file string) (persister.WhisperSchemas, error) {
+	return getSchemas(file)
+}
+
+// VerifParseMetric is parseMetric, for the verification harness.
+func VerifParseMetric(buf []byte, schemas persister.WhisperSchemas, orgId int) (*schema.MetricData, error) {
+	return parseMetric(buf, schemas, orgId)
+}
